@@ -20,6 +20,9 @@ json.dump(ours, open("known_findings.json", "w"), indent=1)
 print("known findings of", pid, ":", [(f["id"], f["status"]) for f in mine])
 PY
 git add known_findings.json; git commit -qm "known_findings: entries from wt-$id" || true
+cp known_findings.json /tmp/kf-merge-$$.json
 git merge -q -X ours wt-$id -m "merge wt-$id" || { echo "MERGE NEEDS ATTENTION"; git status --short | head; exit 1; }
-# their known_findings edits to existing entries are dropped by -X ours; keep ours
+# a textual merge of known_findings.json can duplicate entries: the file computed above is the result
+cp /tmp/kf-merge-$$.json known_findings.json; rm -f /tmp/kf-merge-$$.json
+git add known_findings.json; git commit -qm "known_findings: computed union after merging wt-$id" || true
 echo merged $id; git log --oneline | head -2
